@@ -7,6 +7,7 @@ import (
 	"bufio"
 	"bytes"
 	"fmt"
+	"math"
 	"reflect"
 	"time"
 
@@ -158,7 +159,9 @@ func codecValueCase(c *Case, out *bufio.Writer, st *stats) {
 				ts = ts.Add(time.Second)
 			}
 		}
-		flat := &core.FlatRow{TS: ts.UnixNano(), Key: key, Values: []float64{1.5, -2, 0}}
+		// values a row can carry: fractions, whole numbers, what x / 0 yields, sums beyond the int64 range, infinities
+		flat := &core.FlatRow{TS: ts.UnixNano(), Key: key, Values: [][]float64{{1.5, -2, 0}, {math.MaxFloat64, 9.3e18, -9.3e18},
+			{math.Inf(1), math.Inf(-1), 9223372036854775808}, {math.NaN(), -0.0, 1e-300}, {float64(1 << 53), -float64(1 << 62), 4611686018427387904}}[variant%5]}
 		stats := &common.QueryStats{NumPartitions: 3, NumSuccessfulPartitions: 2, LowestHighWaterMark: 5, HighestHighWaterMark: 9, MissingPartitions: []int{1}}
 		msgs := []interface{}{
 			&rpc.RemoteQueryResult{Key: key, Vals: core.Vals{seq, nil}},
@@ -212,8 +215,14 @@ func sameMessage(a, b interface{}, e expr.Expr) string {
 		if (x.Row == nil) != (y.Row == nil) {
 			return "row presence changed"
 		}
-		if x.Row != nil && (x.Row.TS != y.Row.TS || !bytes.Equal(x.Row.Key, y.Row.Key) || !reflect.DeepEqual(x.Row.Values, y.Row.Values)) {
-			return fmt.Sprintf("flat row %v became %v", x.Row, y.Row)
+		if x.Row != nil {
+			same := x.Row.TS == y.Row.TS && bytes.Equal(x.Row.Key, y.Row.Key) && len(x.Row.Values) == len(y.Row.Values)
+			for i := 0; same && i < len(x.Row.Values); i++ {
+				same = math.Float64bits(x.Row.Values[i]) == math.Float64bits(y.Row.Values[i])
+			}
+			if !same {
+				return fmt.Sprintf("flat row %v %v became %v %v", x.Row.Key.AsMap(), x.Row.Values, y.Row.Key.AsMap(), y.Row.Values)
+			}
 		}
 		if !reflect.DeepEqual(x.Stats, y.Stats) || x.Error != y.Error || x.EndOfResults != y.EndOfResults {
 			return fmt.Sprintf("closing message %+v %q became %+v %q", x.Stats, x.Error, y.Stats, y.Error)
